@@ -29,7 +29,7 @@ def scenarios(tier):
     nmax, mmax, depth = (3, 2, 3) if tier == "quick" else (4, 3, 4)
     out = []
     for n in range(0, nmax + 1):
-        for op in ("append_scalar", "append_array", "append_default", "kill_compactify", "setitem", "bad_name", "bad_shape", "bad_ndim"):
+        for op in ("append_scalar", "append_array", "append_default", "kill_compactify", "setitem", "bad_name", "bad_shape", "bad_ndim") + (("append_missing_time",) if n <= 1 else ()):
             out.append(dict(name=f"step-{op}-n{n}", fn="step", params=dict(n=n, op=op, mmax=mmax), cost=n + 1))
     out.append(dict(name=f"seq-d{depth}", fn="seq", params=dict(depth=depth), cost=50))
     # identifiers across a restart (the run pair of C08, judged under this property)
@@ -95,6 +95,21 @@ def _same_w(W, S, w, clause):
 
 def step(W, p):
     n, op = p["n"], p["op"]
+    if op == "append_missing_time":
+        # a time-typed instance variable without a default and without a value: the new particles get not-a-time,
+        # and whatever happens the state is not left half extended
+        st = W.load("ladim.state")
+        S = st.State(instance_variables=dict(hatch="time"))
+        for k in range(n):
+            S.append(X=W.real(f"px{k}"), Y=1, Z=1, hatch=W.dt(86400 * (k + 1)))
+        try:
+            S.append(X=W.arr([W.real("nx0"), W.real("nx1")], "f"), Y=2, Z=3)
+            raised = None
+        except Exception as exc:  # noqa
+            raised = type(exc).__name__
+        lens = {v: len(S.variables[v]) for v in ("pid", "X", "Y", "Z", "alive", "active", "hatch")}
+        W.prove(raised is None and set(lens.values()) == {n + 2} and S.npid == n + 2, "inv-lengths", dict(exception=raised, lengths=lens, npid=S.npid, note="append without a value for a time-typed variable"))
+        return (op, n)
     S, g = _mkstate(W, n)
     npid = g["npid"]
     if op.startswith("append"):
